@@ -7,6 +7,7 @@
 //! * `report`  – violations, evidence counters, JSON output
 //! * `subject` – a parser run as an observable (items + final outcome), panic capture
 //! * `bigdec`  – decimal strings as arbitrary precision reference numbers
+pub mod abortguard;
 pub mod alloc;
 pub mod bfs;
 pub mod bigdec;
